@@ -34,10 +34,10 @@ inductive PyErr where
   | keyError
 deriving DecidableEq, Repr
 
-/-- Python `x or "0"` (None and "" are falsy) -/
+/-- `"0" if self._current_instance is None else self._current_instance` -/
 def orZero : Option S → S
-  | some (c :: r) => c :: r
-  | _ => sZero
+  | some id => id
+  | none => sZero
 
 /-- `name[name.find(":") + 1:]` when `":" in name` -/
 def stripPrefix (name : S) : S :=
@@ -57,7 +57,7 @@ def step (st : HSt) : Sax → Except PyErr HSt
     | some v =>
       if name = sInstanceID then .ok { st with current := some v }
       else
-        let cur := orZero st.current                    -- `self._current_instance or "0"`
+        let cur := orZero st.current                    -- outside any InstanceID: instance 0
         let changes := if contains st.changes cur then st.changes else set st.changes cur []
         let skip : Bool := match get? attrs sChannel with   -- `not in (None, "Master")`
           | none => false
